@@ -213,6 +213,14 @@ void UncompressedFile::write(const std::shared_ptr<LogContainer> & logContainer)
         (m_tellp < m_tellgRequested);
     });
 
+    /* close the log container that is currently written to, so that it does not overlap the new one */
+    std::shared_ptr<LogContainer> current = logContainerContaining(m_tellp);
+    if (current) {
+        std::streamoff offset = m_tellp - current->filePosition;
+        current->uncompressedFile.resize(offset);
+        current->uncompressedFileSize = offset;
+    }
+
     /* append logContainer */
     m_data.push_back(logContainer);
     logContainer->filePosition = m_tellp;
